@@ -189,6 +189,7 @@ class SolverFault:
         self._real = real
         self.calls = 0
         self.fail_at = None
+        self.fail_count = 1
         self.fired = 0
         self.mode = 'noconv'
 
@@ -196,8 +197,10 @@ class SolverFault:
         idx = self.calls
         self.calls += 1
         res = self._real.amncalc(*a, **k)
-        if self.fail_at is not None and idx == self.fail_at:
-            self.fail_at = None
+        if self.fail_at is not None and \
+                self.fail_at <= idx < self.fail_at + self.fail_count:
+            if idx == self.fail_at + self.fail_count - 1:
+                self.fail_at = None
             self.fired += 1
             res = list(res)
             if self.mode == 'noconv':
